@@ -1,6 +1,7 @@
 import HmcVerif.Exec.C01
 import HmcVerif.Exec.C02
 import HmcVerif.Exec.C03
+import HmcVerif.Exec.C04
 import HmcVerif.Exec.C06
 import HmcVerif.Exec.C08
 import HmcVerif.Exec.C10
@@ -18,6 +19,8 @@ def dispatch (cmd : String) : Option (P String) :=
   | "c02.autotune" => some C02.autotune
   | "c03.mass" => some C03.mass
   | "c03.bfgs" => some C03.bfgs
+  | "c04.hmc" => some C04.hmc
+  | "c04.rwmh" => some C04.rwmh
   | "c06.misfit" => some C06.misfit
   | "c06.update" => some C06.update
   | "c08.fault" => some C08.fault
